@@ -422,6 +422,13 @@ def _bool_unknown(name):
 
 def _makedirs(interp, args, kwargs):
     _effect(interp, "mkdir")
+    g = interp.ctx.ghost
+    if "fs_mkdir_may_clash" in g:
+        # os.makedirs without exist_ok=True raises FileExistsError when ANOTHER process creates the directory first (a test with
+        # os.path.exists beforehand does not help: the other process may run between the test and the call)
+        ok = kwargs.get("exist_ok", args[2] if len(args) > 2 else False)
+        if ok is not True:
+            g["fs_mkdir_may_clash"] = True
     return None
 
 
